@@ -3,6 +3,10 @@
 import json, subprocess
 GOENV = "GOFLAGS=-mod=mod GOPROXY=off GOSUMDB=off GOTOOLCHAIN=local CGO_ENABLED=1"
 CHECKS = {
+ "C13": dict(engine="E6 concurrent", level="exploration", design="DESIGN.md 4/C13",
+   text="under the Go race detector: many goroutines run one shared compiled prototype in their own states with drawn Gosched patterns and GOMAXPROCS values while noise goroutines create/close states, compile, match patterns and recurse on auto-growing stacks - traces must equal the sequential trace, the prototype's deep snapshot must be unchanged, no race report; producer/consumer states on channels (plain and select consumers, Go- or Lua-side close) checked for multiset equality, per-sender order, closure reporting and select case attribution; payload refusal for every value kind through send and select",
+   note="goroutine schedules are sampled, not enumerated; the race detector turns any executed unsynchronised conflicting access into a report regardless of interleaving; code not executed by the generated workloads is not covered",
+   technique="property-based testing of concurrent workloads under the race detector (rapid-drawn workloads, schedule perturbation), invariant and differential oracles"),
  "C17": dict(engine="E1 layouts", level="exploration", design="DESIGN.md 4/C17",
    text="(1) generated programs with line and scope probes under canonical, re-spelled and wild layouts against the reference interpreter: reported lines lie in the innermost executing statement's token span, locals/upvalues are exactly the declared-and-active named variables with current values and setlocal/setupvalue change exactly that variable; (2) a second layout derived by inserting whole blank/comment lines: every reported line number maps by the known shift",
    note="(1) trusts verif/luaref's statement spans and scope model; (2) is metamorphic and needs no reference",
